@@ -546,6 +546,7 @@ def join_shape(ctx, cr):
                     return [(("tuple", ()), mon.set(ev=mon.get("ev", ()) + ("char?",)))]
                 return None
         a = ai.AI(cr, H())
+        a.cap = 8       # the list length is concrete here (k <= 3): positions are compared exactly, `index + 1 == total` included
         try:
             a.run(key, mon=Mon())
         except ai.Undecided as e:
